@@ -604,6 +604,7 @@ func main() {
 	chk.Rule = "deviation-bounded product (all assignments with <=K deviations from each writer's default call) plus full products of interacting axes; non-trivial = distinct (writer, outcome, deviation labels)"
 	chk.Assume("hint values are of the Go types each hint documents (typed level / int or numeric string / bool or string / *Dimension / SymbolShapeHint / string); other Go types are outside 'accepted types'")
 	chk.Assume("'never smaller than the symbol it depicts' is judged against the same call rendered at size 0x0 with margin 0")
+	chk.Assume("'any width and height' is read as any size whose image the process can allocate: requests up to 2^32 pixels are enumerated; beyond the memory of the machine the Go runtime ends the process (an unrecoverable out-of-memory fault no library code can turn into an error), and sizes beyond the address space (e.g. MaxInt x 1, where the 2-D and 1-D writers panic in makeslice) are treated as the same, unclaimed, region")
 	axes := buildAxes()
 	if chk.ReplayFile() != "" {
 		replay(axes)
@@ -619,6 +620,7 @@ func main() {
 	runCode128Product()
 	runMarginProduct()
 	runSizeProduct()
+	runEntryPoints()
 	runDeviations(axes)
 	chk.Sample("call", call{Writer: "QR", Format: int(gozxing.BarcodeFormat_QR_CODE), CLabel: `"HELLO"`, W: "0", H: "0", Hints: map[string]string{"MARGIN": "-5"}})
 	chk.Sample("call", call{Writer: "Code128", Format: int(gozxing.BarcodeFormat_CODE_128), CLabel: `"1ñ2"`, W: "0", H: "0", Hints: map[string]string{"FORCE_CODE_SET": "C"}})
@@ -626,6 +628,18 @@ func main() {
 }
 
 func replay(axes []axis) {
+	var ep epCase
+	if mc.LoadReplay(chk.ReplayFile(), &ep) == nil && ep.Kind == "entry-points" {
+		l := chk.NewLocal()
+		defer l.Merge()
+		for _, wd := range writers {
+			if wd.name == ep.Writer {
+				fmt.Printf("replay %+v\n", ep)
+				epOne(l, wd, gozxing.BarcodeFormat(ep.FormatN), ep.Content, ep.W, ep.H)
+			}
+		}
+		return
+	}
 	var rc replayCase
 	if err := mc.LoadReplay(chk.ReplayFile(), &rc); err != nil {
 		fmt.Println("cannot load replay:", err)
